@@ -1,5 +1,6 @@
 import RepeVerif.Lemmas.Limits
 import RepeVerif.Gen.Limits
+import RepeVerif.Props.C03
 /-!
 # C17 — No outbound WebSocket message exceeds the assumed peer limit
 
@@ -271,5 +272,151 @@ theorem client_never_exceeds (L : Nat) (ops : List (Bool × Message)) (st : Clie
 
 example : ∃ (st : ClientSt) (m : Message), (5 : Nat) < m.toVec.length ∧ st.pending = [3] :=
   ⟨⟨[3], []⟩, ⟨Header.zero, [], []⟩, by decide, rfl⟩
+
+/-! ### composition with C03 (dispatch): the guard preserves "exactly one response per request" -/
+
+/-- Any well-formed response with a clear notify byte comes out of `frame_outbound` as exactly one
+frame that the peer parses to the **same id** — the original frame or its replacement. -/
+theorem guard_keeps_id (hn : m.header.notify = 0) (wf : m.WF)
+    (hl : ∀ L, limit = some L → 48 + (text m.toVec.length L).length < 2^64) :
+    ∃ bs, (frameOutbound Gen.limitFacts limit text m cap rcap).wire = some bs ∧ wireId bs = m.header.id := by
+  cases limit with
+  | none =>
+    refine ⟨m.toVec, by rw [no_limit_unchanged], ?_⟩
+    unfold wireId Message.toVec; rw [List.append_assoc]; rw [parse_encode_append _ wf.inRange]
+  | some L =>
+    by_cases hle : 48 + m.query.length + m.body.length ≤ L
+    · refine ⟨m.toVec, by rw [at_or_below_unchanged text m cap rcap L hle], ?_⟩
+      unfold wireId Message.toVec; rw [List.append_assoc]; rw [parse_encode_append _ wf.inRange]
+    · obtain ⟨bs, r, hfr, _, _, hp, hid, _⟩ :=
+        oversize_response_replaced text m cap rcap L hn (by omega) wf.inRange.id (hl L rfl)
+      exact ⟨bs, by rw [hfr], by unfold wireId; rw [hp, hid]⟩
+
+/-- **C03 ∘ C17, one request.** Take C03's `respond` on a WebSocket transport (inline or off-reader):
+a notify request puts nothing on the wire; a non-notify request whose response is well-formed with a
+clear notify byte (true of every response C03's helpers build, see `C03.response_id`; for a handler's
+own message it is the handler contract) puts **exactly one** frame on the wire, and that frame carries
+the id of C03's response — whether or not the guard had to replace it. -/
+theorem guard_preserves_one_response (t : Transport) (req : Req) (utf8 found : Bool) (hview howned : HOut)
+    (rejMsg : Bytes)
+    (hok : ∀ r, (respond Gen.codes t req utf8 found hview howned rejMsg).1 = some r →
+      r.header.notify = 0 ∧ r.WF ∧ ∀ L, limit = some L → 48 + (text r.toVec.length L).length < 2^64) :
+    (req.isNotify = true → (respond Gen.codes t req utf8 found hview howned rejMsg).1 = none) ∧
+    (req.isNotify = false → ∃ r bs, (respond Gen.codes t req utf8 found hview howned rejMsg).1 = some r ∧
+      (frameOutbound Gen.limitFacts limit text r cap rcap).wire = some bs ∧ wireId bs = r.header.id) := by
+  refine ⟨C03.no_response_for_notify t req utf8 found hview howned rejMsg, ?_⟩
+  intro hn
+  obtain ⟨r, hr⟩ := C03.one_response t req utf8 found hview howned rejMsg hn
+  obtain ⟨h1, h2, h3⟩ := hok r hr
+  obtain ⟨bs, hb, hid⟩ := guard_keeps_id limit text r cap rcap h1 h2 h3
+  exact ⟨r, bs, hr, hb, hid⟩
+
+/-- For an error response built by the dispatch layer (rejection or handler error) the id on the wire
+is the **request's** id (uses `C03.response_id`). -/
+theorem guarded_error_response_has_request_id (t : Transport) (req : Req) (utf8 found : Bool)
+    (code : Nat) (msg rejMsg : Bytes) (hn : req.isNotify = false) (r : Message)
+    (hr : (respond Gen.codes t req utf8 found (.err code msg) (.err code msg) rejMsg).1 = some r)
+    (hnot : r.header.notify = 0) (wf : r.WF)
+    (hl : ∀ L, limit = some L → 48 + (text r.toVec.length L).length < 2^64) :
+    ∃ bs, (frameOutbound Gen.limitFacts limit text r cap rcap).wire = some bs ∧ wireId bs = req.header.id := by
+  obtain ⟨bs, hb, hid⟩ := guard_keeps_id limit text r cap rcap hnot wf hl
+  exact ⟨bs, hb, by rw [hid, C03.response_id t req utf8 found rejMsg hn code msg r hr]⟩
+
+/-- **C03 ∘ C17, a whole connection.** Feed the responses C03's connection loop produces for any
+sequence of requests (`serveSeq`, = `filterMap respond` by `C03.inline_order`) to the writer task: if every
+response has a clear notify byte and is well-formed, the writer emits exactly one frame per response, in
+the same order, the k-th frame carrying the k-th response's id. -/
+theorem connection_one_frame_per_response (t : Transport) (steps : List Step)
+    (hall : ∀ r ∈ (serveSeq Gen.codes t steps [] 0).1, r.header.notify = 0 ∧ r.WF ∧
+      ∀ L, limit = some L → 48 + (text r.toVec.length L).length < 2^64) :
+    let resps := steps.filterMap (fun s => (respond Gen.codes t s.req s.utf8 s.found s.hview s.howned).1)
+    (serveSeq Gen.codes t steps [] 0).1 = resps ∧
+    ((writerRun Gen.limitFacts limit text (resps.map (fun r => ⟨r, 0, 0⟩))).1.map wireId) =
+      resps.map (·.header.id) := by
+  have hio := C03.inline_order t steps
+  simp only
+  refine ⟨by rw [hio], ?_⟩
+  rw [hio] at hall
+  simp only at hall
+  generalize steps.filterMap (fun s => (respond Gen.codes t s.req s.utf8 s.found s.hview s.howned).1) = resps at hall
+  induction resps with
+  | nil => rfl
+  | cons r rest ih =>
+    obtain ⟨h1, h2, h3⟩ := hall r (List.mem_cons_self ..)
+    obtain ⟨bs, hb, hid⟩ := guard_keeps_id limit text r 0 0 h1 h2 h3
+    rw [List.map_cons, writer_continues, hb]
+    simp only [Option.toList, List.cons_append, List.nil_append, List.map_cons, hid]
+    rw [ih (fun x hx => hall x (List.mem_cons_of_mem _ hx))]
+
+example : (Builder.mk 7 false 0 1 2 [47, 97] [49]).build.WF ∧ (Builder.mk 7 false 0 1 2 [47, 97] [49]).build.header.notify = 0 :=
+  ⟨Builder.build_wf _ (by decide) (by decide) (by decide) (by decide) (by decide), rfl⟩
+
+/-! ### where the limit comes from: `WebSocketLimits`, constructors, defaults -/
+
+/-- The construction and plumbing facts read off the source: `Default` = the two default constants with the
+assumed limit equal to the default *frame* size, `unlimited()` clears everything, each setter sets its
+own field, the guard reads `assumed_peer_frame_limit`, the transport gets only the two incoming fields,
+and server / proxy / client hand the configured value (or `default()`) to their guard. -/
+theorem config_facts :
+    let c := Gen.configFacts
+    c.defaultIsDefaults = true ∧ c.unlimitedIsNone = true ∧ c.settersSetOwnField = true ∧
+    c.guardReadsAssumed = true ∧ c.transportGetsIncomingOnly = true ∧ c.serverThreadsLimits = true ∧
+    c.proxyThreadsLimits = true ∧ c.clientThreadsLimits = true := by decide
+
+/-- An endpoint constructed without limits (`WebSocketServer::new`, `proxy_connection`,
+`WebSocketClient::connect`) guards at `DEFAULT_MAX_FRAME_SIZE` (whatever its value; 16 MiB today). -/
+theorem endpoints_without_limits_guard_at_default (ep : Endpoint) :
+    effectiveLimit Gen.configFacts ep none = some Gen.configFacts.defaultFrame := by
+  obtain ⟨h1, _, _, h4, _, h6, h7, h8⟩ := config_facts
+  cases ep <;> simp [effectiveLimit, LimitsExpr.eval, defaultLimits, h1, h4, h6, h7, h8]
+
+/-- With explicit limits the guard works with exactly the configured assumption: the last
+`with_assumed_peer_frame_limit(b)` wins, a literal's own field otherwise, `unlimited()` switches the
+guard off, and the incoming-side fields never influence it. -/
+theorem explicit_limits_are_used (ep : Endpoint) (e : LimitsExpr) (b : Option Nat) (l : WsLimits) :
+    effectiveLimit Gen.configFacts ep (some (.assumed e b)) = b ∧
+    effectiveLimit Gen.configFacts ep (some (.lit l)) = l.assumedPeer ∧
+    effectiveLimit Gen.configFacts ep (some .unlimited) = none ∧
+    effectiveLimit Gen.configFacts ep (some (.lit { l with maxIncomingFrame := b, maxIncomingMessage := b })) =
+      l.assumedPeer := by
+  obtain ⟨_, h2, h3, h4, _, h6, h7, h8⟩ := config_facts
+  cases ep <;> simp [effectiveLimit, LimitsExpr.eval, withAssumed, unlimitedLimits, h2, h3, h4, h6, h7, h8]
+
+/-- The assumed peer limit is repe's own: it never reaches the transport's configuration, and setting
+it leaves the transport's read-side thresholds alone. -/
+theorem assumed_limit_not_in_transport_config (l : WsLimits) (b : Option Nat) :
+    transportConfig Gen.configFacts l = (l.maxIncomingFrame, l.maxIncomingMessage) ∧
+    transportConfig Gen.configFacts (withAssumed Gen.configFacts l b) = transportConfig Gen.configFacts l := by
+  obtain ⟨_, _, h3, _, h5, _⟩ := config_facts
+  simp [transportConfig, withAssumed, h3, h5]
+
+/-- **End to end, server / proxy / client, any configuration expression.** Whatever limits expression the
+endpoint was built with (or none), every binary message it sends is within the assumption that
+expression evaluates to (premise: that limit can carry the error reply). -/
+theorem configured_endpoint_never_exceeds (given : Option LimitsExpr) (L : Nat) (qs : List Queued)
+    (ops : List (Bool × Message))
+    (hs : effectiveLimit Gen.configFacts .server given = some L)
+    (hfit : ∀ q ∈ qs, 48 + (text q.msg.toVec.length L).length ≤ L)
+    (hfitm : 48 + (text m.toVec.length L).length ≤ L) :
+    (∀ bs ∈ (writerRun Gen.limitFacts (effectiveLimit Gen.configFacts .server given) text qs).1, bs.length ≤ L) ∧
+    (∀ bs, proxyForward Gen.limitFacts (effectiveLimit Gen.configFacts .proxy given) text m cap rcap = some bs →
+      bs.length ≤ L) ∧
+    (∀ bs ∈ (ops.foldl (fun s (o : Bool × Message) =>
+        (if o.1 then clientNotify Gen.limitFacts (effectiveLimit Gen.configFacts .client given) s o.2
+         else clientCall Gen.limitFacts (effectiveLimit Gen.configFacts .client given) s o.2).1) ⟨[], []⟩).wire,
+      bs.length ≤ L) := by
+  have hsame : ∀ ep, effectiveLimit Gen.configFacts ep given = some L := by
+    obtain ⟨_, _, _, h4, _, h6, h7, h8⟩ := config_facts
+    intro ep
+    have : effectiveLimit Gen.configFacts ep given = effectiveLimit Gen.configFacts .server given := by
+      cases ep <;> simp [effectiveLimit, h4, h6, h7, h8]
+    rw [this, hs]
+  refine ⟨?_, ?_, ?_⟩
+  · rw [hs]; exact writer_never_exceeds text L qs hfit
+  · intro bs hb; rw [hsame .proxy] at hb; exact proxy_never_exceeds text m cap rcap L bs hfitm hb
+  · rw [hsame .client]; exact client_never_exceeds L ops ⟨[], []⟩ (by simp)
+
+example : effectiveLimit Gen.configFacts .server (some (.assumed .dflt (some 4096))) = some 4096 ∧
+    effectiveLimit Gen.configFacts .client none = some (16 <<< 20) := by decide
 
 end Repe.C17
